@@ -41,5 +41,13 @@ WindowEquiv ==
      /\ LWellFormed(x, y) <=> S!WellFormed(ToInt(x), ToInt(y))
      /\ LInWindow(x, y, z) <=> S!InWindow(ToInt(x), ToInt(y), ToInt(z))
      /\ LWindowDecision(x, y, z) = S!WindowDecision(ToInt(x), ToInt(y), ToInt(z))
+\* x as the verifier's clock, y as the timestamp, small and large windows
+FreshEquiv ==
+  \A pf \in {<<1, 0>>, <<0, 1>>, <<3, 1>>, <<B, 2>>, <<B + 1, B - 1>>, <<2, B + 3>>} :
+     (S!FreshParamsOK(pf[1], pf[2])) =>
+        /\ LFresh(x, y, ToLimbs(pf[1]), ToLimbs(pf[2]))
+              <=> S!Fresh(ToInt(x), ToInt(y), pf[1], pf[2])
+        /\ LFreshDecision(x, y, ToLimbs(pf[1]), ToLimbs(pf[2]))
+              = S!FreshDecision(ToInt(x), ToInt(y), pf[1], pf[2])
 RoundTrip == ToLimbs(ToInt(x)) = x /\ ToInt(LHalf) = S!H
 =============================================================================
